@@ -1308,4 +1308,172 @@ theorem parse_sim {P : Nat} {c1 c2 : Ctx} (h : SimW P c1 c2) (base len : Nat) (h
     a1.w.regs, a1.w.eq⟩, ?_, a3⟩
   exact (hst0.trans a2).trans ⟨[], w, k, ⟨by simp, e1, e3⟩, ⟨by simp, e2, e4⟩⟩
 
+/-! ## SCPI_Input -/
+
+theorem window_eq' {P : Nat} {b1 b2 : Bytes} (h : Agree P b1 b2) (a n : Nat) (hb : n = 0 ∨ a + n ≤ P + 1) :
+    (b1.drop a).take n = (b2.drop a).take n := by
+  rcases hb with h0 | h1
+  · subst h0; simp
+  · exact h.window a n h1
+
+theorem inputLoop_sim {P : Nat} : ∀ (fuel : Nat) (c1 c2 : Ctx) (tot : Nat) (res : Bool),
+    SimW P c1 c2 → tot ≤ c1.position →
+    SimW P (inputLoop fuel c1 tot res).1 (inputLoop fuel c2 tot res).1 ∧
+    Step c1 c2 (inputLoop fuel c1 tot res).1 (inputLoop fuel c2 tot res).1 ∧
+    (inputLoop fuel c1 tot res).2 = (inputLoop fuel c2 tot res).2 := by
+  intro fuel
+  induction fuel with
+  | zero => intro c1 c2 tot res h _; exact ⟨h, Step.refl _ _, rfl⟩
+  | succ fuel ih =>
+    intro c1 c2 tot res h htot
+    have hpos := h.pos
+    have ew : (c2.buf.drop tot).take (c2.position - tot) = (c1.buf.drop tot).take (c1.position - tot) := by
+      rw [h.position]; exact (h.buf.window _ _ (by omega)).symm
+    have hcons : (Parser.detectUnit ((c1.buf.drop tot).take (c1.position - tot))).consumed ≤ c1.position - tot :=
+      Nat.le_trans (Props.C13.unit_spec _).2.2.2.2.1 (Bounds.window_length_le _ _ _)
+    unfold inputLoop
+    simp only []
+    rw [ew]
+    generalize Parser.detectUnit ((c1.buf.drop tot).take (c1.position - tot)) = u at hcons ⊢
+    by_cases h1 : (u.term == Parser.Termination.nl) = true
+    · simp only [h1, if_true]
+      obtain ⟨a1, a2, a3⟩ := parse_sim h 0 (tot + u.consumed) (by omega)
+      generalize parse c1 0 (tot + u.consumed) = x1 at a1 a2 a3 ⊢
+      generalize parse c2 0 (tot + u.consumed) = x2 at a1 a2 a3 ⊢
+      obtain ⟨d1, r1⟩ := x1
+      obtain ⟨d2, r2⟩ := x2
+      simp only at a1 a2 a3 ⊢
+      subst a3
+      have hp := a1.pos
+      have er : (d2.buf.drop (tot + u.consumed)).take (d2.position - (tot + u.consumed)) =
+          (d1.buf.drop (tot + u.consumed)).take (d1.position - (tot + u.consumed)) := by
+        rw [a1.position]; exact (window_eq' a1.buf _ _ (by omega)).symm
+      rw [er, a1.position]
+      have hrl : ((d1.buf.drop (tot + u.consumed)).take (d1.position - (tot + u.consumed))).length ≤ d1.position - (tot + u.consumed) :=
+        Bounds.window_length_le _ _ _
+      have hw : SimW P
+          { d1 with buf := poke d1.buf 0 ((d1.buf.drop (tot + u.consumed)).take (d1.position - (tot + u.consumed))),
+                    position := d1.position - (tot + u.consumed) }
+          { d2 with buf := poke d2.buf 0 ((d1.buf.drop (tot + u.consumed)).take (d1.position - (tot + u.consumed))),
+                    position := d1.position - (tot + u.consumed) } :=
+        ⟨a1.cmds, a1.choices, a1.withInfo, a1.bufLen, rfl, a1.buf.store _ 0 (by omega),
+         by show P < (poke _ _ _).length; rw [Bounds.poke_length]; exact a1.inb,
+         by show (poke _ _ _).length = _; rw [Bounds.poke_length]; exact a1.blen,
+         by show d1.position - (tot + u.consumed) ≤ P; omega, a1.regs, a1.eq⟩
+      obtain ⟨b1, b2, b3⟩ := ih _ _ 0 r1 hw (Nat.zero_le _)
+      exact ⟨b1, (a2.trans (Step.of_eq rfl rfl rfl rfl)).trans b2, b3⟩
+    · simp only [h1, Bool.false_eq_true, if_false]
+      rw [h.position]
+      split
+      · exact ⟨h, Step.refl _ _, rfl⟩
+      · split
+        · exact ⟨h, Step.refl _ _, rfl⟩
+        · exact ih _ _ _ res h (by omega)
+
+/-- equal lengths and equal bytes on a set of indices -/
+def EqOn (S : Nat → Prop) (b1 b2 : Bytes) : Prop := b1.length = b2.length ∧ ∀ i, S i → b1.getD i 0 = b2.getD i 0
+
+theorem getD_set' (b : Bytes) (j i : Nat) (x : UInt8) :
+    (b.set j x).getD i 0 = if j = i ∧ j < b.length then x else b.getD i 0 := by
+  simp only [List.getD_eq_getElem?_getD, List.getElem?_set]
+  by_cases hji : j = i
+  · subst hji
+    by_cases hl : j < b.length
+    · simp [hl]
+    · simp [hl]
+  · simp [hji]
+
+theorem EqOn.set {S : Nat → Prop} {b1 b2 : Bytes} (h : EqOn S b1 b2) (j : Nat) (x : UInt8) :
+    EqOn (fun i => S i ∨ i = j) (b1.set j x) (b2.set j x) := by
+  refine ⟨by simp [h.1], ?_⟩
+  intro i hi
+  rw [getD_set', getD_set', h.1]
+  have hl := h.1
+  by_cases hc : j = i ∧ j < b2.length
+  · rw [if_pos hc, if_pos hc]
+  · rw [if_neg hc, if_neg hc]
+    rcases hi with hi | hi
+    · exact h.2 i hi
+    · subst hi
+      have hge : ¬ i < b2.length := fun hh => hc ⟨rfl, hh⟩
+      simp only [List.getD_eq_getElem?_getD]
+      rw [List.getElem?_eq_none (by omega), List.getElem?_eq_none (by omega)]
+
+theorem EqOn.mono {S S' : Nat → Prop} {b1 b2 : Bytes} (h : EqOn S b1 b2) (hs : ∀ i, S' i → S i) : EqOn S' b1 b2 :=
+  ⟨h.1, fun i hi => h.2 i (hs i hi)⟩
+
+theorem EqOn.foldl_set {α : Type} (g : α → Nat) (v : α → UInt8) : ∀ (l : List α) (S : Nat → Prop) (b1 b2 : Bytes),
+    EqOn S b1 b2 → EqOn (fun i => S i ∨ ∃ a ∈ l, g a = i)
+      (l.foldl (fun b a => b.set (g a) (v a)) b1) (l.foldl (fun b a => b.set (g a) (v a)) b2) := by
+  intro l
+  induction l with
+  | nil => intro S b1 b2 h; exact h.mono (by intro i hi; rcases hi with hi | ⟨a, ha, _⟩; exact hi; cases ha)
+  | cons a l ih =>
+    intro S b1 b2 h
+    rw [List.foldl_cons, List.foldl_cons]
+    apply (ih _ _ _ (h.set (g a) (v a))).mono
+    intro i hi
+    rcases hi with hi | ⟨a', ha', he⟩
+    · left; left; exact hi
+    · rcases List.mem_cons.1 ha' with rfl | hm
+      · left; right; exact he.symm
+      · right; exact ⟨a', hm, he⟩
+
+theorem eqOn_poke {S : Nat → Prop} {b1 b2 : Bytes} (h : EqOn S b1 b2) (p : Nat) (data : Bytes) :
+    EqOn (fun i => S i ∨ (p ≤ i ∧ i < p + data.length)) (poke b1 p data) (poke b2 p data) := by
+  have := EqOn.foldl_set (fun (q : UInt8 × Nat) => p + q.2) (fun q => q.1) data.zipIdx S b1 b2 h
+  apply this.mono
+  intro i hi
+  rcases hi with hi | ⟨h1, h2⟩
+  · left; exact hi
+  · right
+    have hlt : i - p < data.length := by omega
+    refine ⟨(data[i - p], i - p), ?_, by show p + (i - p) = i; omega⟩
+    rw [List.mem_zipIdx_iff_getElem?]
+    simp [hlt]
+
+theorem agree_input {b1 b2 : Bytes} (hl : b1.length = b2.length) (p : Nat) (ht : b1.take p = b2.take p)
+    (data : Bytes) (hb : p + data.length < b1.length) :
+    Agree (p + data.length) ((poke b1 p data).set (p + data.length) 0) ((poke b2 p data).set (p + data.length) 0) := by
+  have h0 : EqOn (fun i => i < p) b1 b2 := by
+    refine ⟨hl, ?_⟩
+    intro i hi
+    have := congrArg (fun l => l.getD i 0) ht
+    simp only [List.getD_eq_getElem?_getD, List.getElem?_take, hi, if_true] at this ⊢
+    exact this
+  have h1 := (eqOn_poke h0 p data).set (p + data.length) 0
+  refine ⟨h1.1, ?_, ?_⟩
+  · intro i hi
+    apply h1.2
+    by_cases hip : i < p
+    · left; left; exact hip
+    · by_cases hie : i = p + data.length
+      · right; exact hie
+      · left; right; omega
+  · rw [getD_set']
+    have : p + data.length < (poke b1 p data).length := by rw [Bounds.poke_length]; exact hb
+    simp [this]
+
+theorem rel_of_simW {P : Nat} {d1 d2 : Ctx} (h : SimW P d1 d2) : Rel d1 d2 := by
+  have h1 := h.inb
+  have h2 := h.blen
+  have h3 := h.pos
+  refine ⟨h.cmds.symm, h.choices.symm, h.withInfo.symm, h.bufLen.symm, h.blen, ?_, h.position.symm, by omega, ?_, h.regs, h.eq⟩
+  · rw [← h.buf.len, h.bufLen]; exact h.blen
+  · rw [h.position]; exact h.buf.take _ (by omega)
+
+theorem simW_of_rel {c1 c2 : Ctx} (h : Rel c1 c2) (data : Bytes) (hb : c1.position + data.length < c1.bufLen) :
+    SimW (c1.position + data.length)
+      { c1 with buf := (poke c1.buf c1.position data).set (c1.position + data.length) 0, position := c1.position + data.length }
+      { c2 with buf := (poke c2.buf c2.position data).set (c2.position + data.length) 0, position := c2.position + data.length } := by
+  obtain ⟨r1, r2, r3, r4, r5, r6, r7, r8, r9, r10, r11⟩ := h
+  have hl : c1.buf.length = c2.buf.length := by rw [r5, r6, r4]
+  have ha := agree_input hl c1.position (by rw [r9, r7]) data (by omega)
+  rw [← r7]
+  refine ⟨r1.symm, r2.symm, r3.symm, r4.symm, rfl, ha, ?_, ?_, Nat.le_refl _, r10, r11⟩
+  · show _ < ((poke _ _ _).set _ _).length
+    rw [List.length_set, Bounds.poke_length]; omega
+  · show ((poke _ _ _).set _ _).length = _
+    rw [List.length_set, Bounds.poke_length]; exact r5
+
 end ScpiVerif.Lemmas.Isolation
